@@ -1374,20 +1374,7 @@ Proof.
       repeat (split; [first [exact ID|reflexivity|exact I]|]). reflexivity.
 Qed.
 End COMPLETE.
-Print Assumptions accepted_autovar_leaf_partial.
 
-Print Assumptions form_parses.
-Print Assumptions pure_form_leaf_spec.
-Print Assumptions leaf_varcmp_value.
-Print Assumptions parser_builds_tree_forms.
-Print Assumptions value_leaf_meaning.
-Print Assumptions form_leaf_meaning.
-Print Assumptions autovar_leaf_meaning.
-Print Assumptions condition_parses_to_its_meaning_forms.
-Print Assumptions condition_value_is_precedence_reading_forms.
-Print Assumptions shape_wf.
-Print Assumptions accepted_plain_leaf_is_a_form.
-Print Assumptions accepted_autovar_leaf_partial.
 
 (* ====================================================================================================== *)
 (*  the premises are satisfiable: a condition lexed from text, with every kind of head and comparison       *)
@@ -1493,7 +1480,3 @@ Proof.
 Qed.
 End Examples.
 
-Print Assumptions Examples.ex_wf.
-Print Assumptions Examples.ex_run.
-Print Assumptions Examples.ex_meaning.
-Print Assumptions Examples.ex_value_leaf.
